@@ -97,10 +97,7 @@ impl Interp {
                 self.insts.insert(b, c);
                 let n = self.news[&a].clone();
                 self.news.insert(b, n);
-                match self.last.get(&a).cloned() {
-                    Some(l) => self.last.insert(b, l),
-                    None => self.last.remove(&b),
-                };
+                self.last.remove(&b); // a copy has produced no output of its own yet
                 "ok".to_string()
             }
             "gutsrt" => {
@@ -109,10 +106,7 @@ impl Interp {
                 self.insts.insert(b, c);
                 let n = self.news[&a].clone();
                 self.news.insert(b, n);
-                match self.last.get(&a).cloned() {
-                    Some(l) => self.last.insert(b, l),
-                    None => self.last.remove(&b),
-                };
+                self.last.remove(&b); // a copy has produced no output of its own yet
                 "ok".to_string()
             }
             "fresh" => {
